@@ -284,7 +284,7 @@ def halo_split_jobs(quick):
     jobs = []
     profs = [(0, [5, 5, 1], [2, 2, 1], [2, 2, 1], [2, 1, 0]), (0, [6, 6, 2], [3, 2, 1], [2, 2, 1], [3, 1, 0])]
     if not quick:
-        profs += [(0, [6, 6, 2], [2, 1, 1], [3, 2, 1], [3, 2, 0]), (0, [7, 7, 2], [4, 3, 1], [3, 3, 1], [4, 2, 0]), (2, [6, 6, 4, 1], [2, 2, 1, 1], [2, 2, 2, 1], [2, 2, 1, 0])]
+        profs += [(0, [6, 6, 2], [2, 1, 1], [3, 2, 1], [3, 2, 0]), (2, [6, 6, 4, 1], [2, 2, 1, 1], [2, 2, 2, 1], [2, 2, 1, 0])]
     for (shape, cntP, c1n, c2n, hn) in profs:
         D = len(cntP) - 1
         mk = lambda nm, ns: [[z3.BitVec('%s_%d_%d' % (nm, d, i), 64) for i in range(ns[d])] for d in range(D + 1)]
